@@ -76,6 +76,13 @@ fn tokens(text: &str) -> Vec<(usize, usize)> {
     out
 }
 
+fn find_all(hay: &[u8], needle: &[u8]) -> Vec<usize> {
+    let mut out = vec![];
+    if hay.len() < needle.len() { return out; }
+    for i in 0..=hay.len() - needle.len() { if &hay[i..i + needle.len()] == needle { out.push(i); } }
+    out
+}
+
 fn mutate_text(src: &[u8], rng: &mut Rng) -> (&'static str, String, Vec<u8>) {
     let text = String::from_utf8_lossy(src).to_string();
     let toks = tokens(&text);
@@ -130,7 +137,14 @@ fn mutate_text(src: &[u8], rng: &mut Rng) -> (&'static str, String, Vec<u8>) {
             let mut r = m[..k].to_vec(); for _ in 0..depth { r.extend_from_slice(open.as_bytes()); } r.extend_from_slice(&m[k..e.max(k)]); for _ in 0..depth { r.extend_from_slice(close.as_bytes()); } r.extend_from_slice(&m[e.max(k)..]);
             ("nest", format!("nest {}x{:?} @{}", depth, open, k), r)
         },
-        14 => { let mut r = vec![0xEF, 0xBB, 0xBF]; r.extend(m); ("bom", "utf-8 BOM".into(), r) },
+        14 => {
+            // an extreme number in an item header: `script <N> name`, or a BOM when the text has no script
+            let heads = find_all(&m, b"script ");
+            if heads.is_empty() || rng.chance(1, 4) { let mut r = vec![0xEF, 0xBB, 0xBF]; r.extend(m); return ("bom", "utf-8 BOM".into(), r); }
+            let k = *rng.pick(&heads) + 7; let d = *rng.pick(&EXTREME);
+            let mut r = m[..k].to_vec(); r.extend_from_slice(d.as_bytes()); r.push(b' '); r.extend_from_slice(&m[k..]);
+            ("header-int-insert", format!("script {} .. @{}", d, k), r)
+        },
         _ => {
             let cnt = 2 + rng.below(5) as usize; let mut d = String::from("multi");
             for _ in 0..cnt { let k = rng.below(n as u64) as usize; if k < m.len() { m[k] = *rng.pick(&[b'(', b')', b'{', b'}', b';', b'"', b'0', b'-', b'@', b':', b' ', b'\n']); d.push_str(&format!(" @{}", k)); } }
@@ -192,13 +206,18 @@ fn gen_ex(rng: &mut Rng, ty: Ty, depth: u32, consts: &[Ty]) -> Ex {
                 let k = rng.below(consts.len() as u64) as usize;
                 if consts[k] == ty { Ex::Const(None, k) } else if consts[k] != Ty::S { Ex::Const(Some(ty), k) } else { Ex::LitI(3) }
             },
-            _ => match ty { Ty::I => Ex::LitI(*rng.pick(&[0, 1, 2, 7, -3, 100, 65536])), _ => Ex::LitF(*rng.pick(&[0x3f800000u32, 0x40000000, 0xc0a00000, 0x3f000000, 0])) },
+            _ => match ty { Ty::I => Ex::LitI(*rng.pick(&[0, 1, 2, 7, -3, 100, 65536, -1, i32::MIN, i32::MAX, -1])), _ => Ex::LitF(*rng.pick(&[0x3f800000u32, 0x40000000, 0xc0a00000, 0x3f000000, 0])) },
         };
     }
     let d = depth - 1;
     match ty {
         Ty::I => match rng.below(10) {
-            0..=3 => { let op = *rng.pick(&["+", "-", "*", "/", "%", "|", "^", "&", "||", "&&", "<<", ">>", ">>>"]); Ex::Bin(Box::new(gen_ex(rng, Ty::I, d, consts)), op, Box::new(gen_ex(rng, Ty::I, d, consts))) },
+            0..=3 => {
+                let op = *rng.pick(&["+", "-", "*", "/", "%", "|", "^", "&", "||", "&&", "<<", ">>", ">>>", "/", "%"]);
+                // the one pair on which machine division overflows
+                if (op == "/" || op == "%") && rng.chance(1, 4) { return Ex::Bin(Box::new(Ex::LitI(i32::MIN)), op, Box::new(if rng.chance(1, 2) { Ex::LitI(-1) } else { Ex::Bin(Box::new(Ex::LitI(0)), "-", Box::new(Ex::LitI(1))) })); }
+                Ex::Bin(Box::new(gen_ex(rng, Ty::I, d, consts)), op, Box::new(gen_ex(rng, Ty::I, d, consts)))
+            },
             4 | 5 => { let op = *rng.pick(&["==", "!=", "<", "<=", ">", ">="]); let t = if rng.chance(1, 2) { Ty::I } else { Ty::F }; Ex::Bin(Box::new(gen_ex(rng, t, d, consts)), op, Box::new(gen_ex(rng, t, d, consts))) },
             6 => Ex::Un(*rng.pick(&["-", "~", "!"]), Box::new(gen_ex(rng, Ty::I, d, consts))),
             7 => Ex::Un("int", Box::new(gen_ex(rng, Ty::F, d, consts))),
@@ -292,7 +311,12 @@ fn gen_tc_prog(rng: &mut Rng) -> TcProg {
 fn tc_source(p: &TcProg) -> String {
     let mut s = String::new();
     for (k, t) in p.consts.iter().enumerate() {
-        s.push_str(&format!("const {} C{} = {};\n", tyname(*t), k, match t { Ty::I => "3", Ty::F => "2.5", Ty::S => "\"s\"" }));
+        let init = match t {
+            Ty::I => ["3", "-1", "-2147483648", "2147483647", "(0 - 1)", "-2147483648 / -1", "0x80000000 % (0 - 1)", "7"][(k * 5 + p.consts.len() * 3 + size(&p.ex)) % 8],
+            Ty::F => ["2.5", "-0.0", "1.0 / 0.5", "3.0"][(k + size(&p.ex)) % 4],
+            Ty::S => "\"s\"",
+        };
+        s.push_str(&format!("const {} C{} = {};\n", tyname(*t), k, init));
     }
     s.push_str(&format!("script s0 {{\n    ins_{}({});\n}}\n", if p.want == Ty::I { 900 } else { 901 }, src_of(&p.ex)));
     s
@@ -330,6 +354,161 @@ fn corr(n: usize, rng: &mut Rng) {
 }
 
 // ---------------------------------------------------------------------------------------------
+// user mapfiles that redefine / extend builtin enums, consts and aliases: diagnostics then carry labels on
+// builtin (span-less) definitions
+
+const BUILTIN_ENUMS: [&str; 9] = ["bool", "AnmSprite", "AnmScript", "EclSub", "EclSubName", "MsgScript", "BitmapColorFormat", "Color", "bool"];
+const BUILTIN_NAMES: [&str; 16] = ["true", "false", "INF", "NAN", "PI", "true", "false", "sprite0", "script0", "sub0", "s0", "main", "foo", "bar", "Argb8888", "int"];
+
+fn builtin_redef_case(tool: &str, flags: &[String], rng: &mut Rng) -> (String, String, String) {
+    let mut map = String::from(map_magic(tool)); map.push('\n');
+    let mut desc = String::new();
+    let nsec = 1 + rng.below(3);
+    if rng.chance(1, 3) {
+        // focused: a builtin enum gets another value for one of its builtin members (the only enum with builtin,
+        // span-less members is `bool`), possibly next to an unrelated extension
+        let e = *rng.pick(&["bool", "bool", "bool", "BitmapColorFormat", "AnmSprite"]);
+        map.push_str(&format!("!enum(name=\"{}\")\n", e)); desc.push_str(&format!("enum {} members ", e));
+        for _ in 0..(1 + rng.below(3)) {
+            map.push_str(&format!("{} {}\n", *rng.pick(&["0", "1", "5", "2", "-1", "2147483647"]), *rng.pick(&["true", "false", "true", "false", "yes", "Argb8888"])));
+        }
+    } else {
+    for _ in 0..nsec {
+        match rng.below(10) {
+            0..=5 => {
+                let e = *rng.pick(&BUILTIN_ENUMS);
+                map.push_str(&format!("!enum(name=\"{}\")\n", e)); desc.push_str(&format!("enum {} ", e));
+                let n = 1 + rng.below(4);
+                let mut last: Option<&str> = None;
+                for _ in 0..n {
+                    // the same name twice with different values, and the same value under two names
+                    let name = if last.is_some() && rng.chance(1, 3) { last.unwrap() } else { *rng.pick(&BUILTIN_NAMES) };
+                    last = Some(name);
+                    let val = *rng.pick(&["0", "1", "5", "2", "-1", "1", "0", "2147483647", "7"]);
+                    map.push_str(&format!("{} {}\n", val, name));
+                }
+            },
+            6 | 7 => {
+                let sec = *rng.pick(&["gvar_names", "ins_names", "timeline_ins_names"]);
+                map.push_str(&format!("!{}\n", sec)); desc.push_str(sec); desc.push(' ');
+                for _ in 0..(1 + rng.below(3)) {
+                    let num = *rng.pick(&["10000", "10001", "1", "1", "3", "-1", "10004"]);
+                    map.push_str(&format!("{} {}\n", num, *rng.pick(&BUILTIN_NAMES)));
+                }
+                if sec == "gvar_names" && rng.chance(1, 2) { map.push_str("!gvar_types\n10000 $\n10001 %\n10004 %\n"); }
+            },
+            8 => { map.push_str("!ins_signatures\n1 \n3 n\n7 N\n8 S(enum=\"bool\")\n9 S(enum=\"Color\")\n"); desc.push_str("sigs "); },
+            _ => { map.push_str("!difficulty_flags\n0 E\n1 N\n2 E\n3 true\n"); desc.push_str("flags "); },
+        }
+    }
+    }
+    // a source that mentions the names, so that lookups reach the (re)definitions
+    let uses = ["int x = true;", "int y = false + 1;", "float f = INF;", "float g = PI * 2.0;", "int z = bool.true;", "int w = Color.foo;", "int v = bool.foo;",
+                "ins_1();", "ins_8(true);", "ins_9(foo);", "ins_3(sprite0);", "ins_7(script0);", "foo();", "I0 = true;", "int q = NAN;", "int s = AnmSprite.s0;", "const int true = 3;", "const float INF = 1.0;"];
+    let mut body = String::new();
+    for _ in 0..(1 + rng.below(4)) { body.push_str("    "); body.push_str(*rng.pick(&uses)); body.push('\n'); }
+    let src = if flags.iter().any(|f| f == "--mission") { trivial_source(tool, flags) } else {
+        match tool {
+            "truanm" => format!("entry {{ path: \"a.png\", has_data: false, img_width: 8, img_height: 8, img_format: 3, offset_x: 0, offset_y: 0, colorkey: 0, memory_priority: 0, low_res_scale: false, sprites: {{s0: {{id: 0, x: 0.0, y: 0.0, w: 8.0, h: 8.0}}}} }}\nscript script0 {{\n{}}}\n", body),
+            "trustd" => format!("meta {{ unknown: 0, anm_path: \"a.anm\", objects: {{}}, instances: [] }}\nscript main {{\n{}}}\n", body),
+            "trumsg" => format!("meta {{ table: {{ 0: {{script: \"main\"}} }} }}\nscript main {{\n{}}}\n", body),
+            _ => format!("script timeline0 {{ }}\nvoid sub0() {{\n{}}}\n", body),
+        }
+    };
+    (src, map, desc)
+}
+
+// extreme integers in every item-header / meta position
+const EXTREME: [&str; 14] = ["0", "-1", "2147483647", "-2147483648", "4294967295", "2147483648", "100000000", "99999999", "65535", "65536", "-2147483649", "4294967296", "99999999999", "1"];
+
+fn header_int_case(rng: &mut Rng) -> (&'static str, &'static str, Vec<String>, String, String) {
+    let n = *rng.pick(&EXTREME); let m = *rng.pick(&EXTREME);
+    let anm_entry = |fields: &str, sprites: &str| format!("entry {{ path: \"a.png\", has_data: false, {} sprites: {{{}}} }}\n", fields, sprites);
+    let dflt = "img_width: 8, img_height: 8, img_format: 3, offset_x: 0, offset_y: 0, colorkey: 0, memory_priority: 0, low_res_scale: false,";
+    match rng.below(16) {
+        0 => ("truanm", "12", vec![], format!("{}script {} name {{}}\n", anm_entry(dflt, "s0: {id: 0, x: 0.0, y: 0.0, w: 8.0, h: 8.0}"), n), format!("anm script {} name", n)),
+        1 => ("truanm", "12", vec![], format!("{}script {} a {{}}\nscript b {{}}\nscript {} c {{}}\nscript d {{}}\n", anm_entry(dflt, ""), n, m), format!("anm script {} a; b; script {} c; d", n, m)),
+        2 => ("truanm", *rng.pick(&["6", "12", "17"]), vec![], format!("{}script s {{}}\n", anm_entry(dflt, &format!("s0: {{id: {}, x: 0.0, y: 0.0, w: 8.0, h: 8.0}}, s1: {{x: 0.0, y: 0.0, w: 8.0, h: 8.0}}, s2: {{id: {}, x: 0.0, y: 0.0, w: 8.0, h: 8.0}}", n, m))), format!("anm sprite ids {} auto {}", n, m)),
+        3 => {
+            let field = *rng.pick(&["img_width", "img_height", "img_format", "offset_x", "offset_y", "colorkey", "memory_priority", "rt_width", "rt_height", "rt_format"]);
+            let mut f = String::new();
+            for k in ["img_width", "img_height", "img_format", "offset_x", "offset_y", "colorkey", "memory_priority"] { f.push_str(&format!("{}: {}, ", k, if k == field { n } else if k == "img_format" { "3" } else if k.starts_with("img") { "8" } else { "0" })); }
+            if field.starts_with("rt_") { f.push_str(&format!("{}: {}, ", field, n)); }
+            f.push_str("low_res_scale: false,");
+            ("truanm", "12", vec![], format!("{}script s {{}}\n", anm_entry(&f, "")), format!("anm entry {}: {}", field, n))
+        },
+        4 => ("truecl", *rng.pick(&["6", "7", "8"]), vec![], format!("script {} timeline0 {{}}\nvoid sub0() {{}}\n", n), format!("ecl script {} timeline0", n)),
+        5 => ("truecl", *rng.pick(&["6", "8"]), vec![], format!("script {} a {{}}\nscript {} b {{}}\nscript c {{}}\nvoid sub0() {{}}\n", n, m), format!("ecl timelines {} {} auto", n, m)),
+        6 => ("truecl", "6", vec![], format!("script timeline{} {{}}\nvoid sub{}() {{}}\nvoid Sub{}() {{}}\n", n.trim_start_matches('-'), m.trim_start_matches('-'), n.trim_start_matches('-')), format!("ecl timeline{} sub{}", n, m)),
+        7 => ("trumsg", *rng.pick(&["6", "12"]), vec![], format!("meta {{ table: {{ {}: {{script: \"main\"}}, {}: {{script: \"main\", flags: {}}} }} }}\nscript main {{ }}\n", n, m, n), format!("msg table keys {} {}", n, m)),
+        8 => ("trumsg", *rng.pick(&["6", "12"]), vec![], format!("meta {{ table_len: {}, table: {{ 0: {{script: \"main\"}}, default: {{script: \"main\"}} }} }}\nscript main {{ }}\n", n), format!("msg table_len {}", n)),
+        9 => ("trumsg", "12", vec![], format!("meta {{ table: {{ 0: {{script: \"main\"}} }} }}\nscript {} main {{ }}\nscript {} other {{ }}\n", n, m), format!("msg script {} main", n)),
+        10 => ("trustd", *rng.pick(&["8", "12"]), vec![], format!("meta {{ unknown: {}, anm_path: \"a.anm\", stage_name: \"s\", bgm: [{{path: \" \", name: \" \"}}, {{path: \" \", name: \" \"}}, {{path: \" \", name: \" \"}}, {{path: \" \", name: \" \"}}], objects: {{ o: {{ layer: {}, pos: [0.0, 0.0, 0.0], size: [1.0, 1.0, 1.0], quads: [rect {{anm_script: {}, pos: [0.0, 0.0, 0.0], size: [1.0, 1.0]}}] }} }}, instances: [o {{pos: [0.0, 0.0, 0.0]}}] }}\nscript {} main {{ }}\n", n, m, n, m), format!("std meta numbers {} {}", n, m)),
+        11 => ("trumsg", "095", vec!["--mission".to_string()], format!("entry {{ stage: {}, scene: {}, face: {}, point: {}, text: [\"a\", \"b\", \"c\"] }}\n", n, m, n, m), format!("mission numbers {} {}", n, m)),
+        12 => ("truecl", "10", vec![], format!("meta {{ ecli: [], anim: [] }}\nscript {} x {{}}\nvoid main() {{}}\n", n), format!("ecl10 script {}", n)),
+        13 => ("truanm", "12", vec![], format!("#pragma mapfile {}\n#pragma image_source {}\n#pragma {} {}\n{}script s {{}}\n", n, m, "mapfile", n, anm_entry(dflt, "")), format!("pragma numbers {}", n)),
+        14 => ("truanm", "12", vec![], format!("{}script s {{\n    interrupt[{}]:\n    ins_{}();\n+{}:\n{}:\n    ins_1();\n}}\n", anm_entry(dflt, ""), n, m.trim_start_matches('-'), n.trim_start_matches('-'), m.trim_start_matches('-')), format!("interrupt/ins/time labels {} {}", n, m)),
+        _ => ("truecl", "8", vec![], format!("script timeline0 {{}}\nvoid sub0() {{\n    {{\"{}\"}}: ins_{}();\n    int x = {};\n}}\n", n, m.trim_start_matches('-'), n), format!("difficulty label / opcode {} {}", n, m)),
+    }
+}
+
+/// like trivial_source, but the calls of the mapped names carry arguments (so that a bad signature is reached),
+/// optionally naming the mapfile by pragma instead of -m
+fn call_source(tool: &str, flags: &[String], rng: &mut Rng, pragma: bool) -> String {
+    if flags.iter().any(|f| f == "--mission") { return trivial_source(tool, flags); }
+    let args = ["", "1", "true", "1, 2", "1.0", "\"s\"", "I0", "foo", "1, 2.0, 3", "offsetof(lbl), timeof(lbl)"];
+    let mut body = String::from("  lbl:\n");
+    for _ in 0..(1 + rng.below(3)) {
+        let callee = *rng.pick(&["ins_0", "ins_1", "ins_10", "foo", "bar", "ins_65535", "ins_3"]);
+        body.push_str(&format!("    {}({});\n", callee, *rng.pick(&args)));
+    }
+    let head = if pragma { format!("#pragma mapfile \"m.{}\"\n", map_ext(tool)) } else { String::new() };
+    head + &match tool {
+        "truanm" => format!("entry {{ path: \"a.png\", has_data: false, img_width: 8, img_height: 8, img_format: 3, offset_x: 0, offset_y: 0, colorkey: 0, memory_priority: 0, low_res_scale: false, sprites: {{s0: {{id: 0, x: 0.0, y: 0.0, w: 8.0, h: 8.0}}}} }}\nscript script0 {{\n{}}}\n", body),
+        "trustd" => format!("meta {{ unknown: 0, anm_path: \"a.anm\", objects: {{}}, instances: [] }}\nscript main {{\n{}}}\n", body),
+        "trumsg" => format!("meta {{ table: {{ 0: {{script: \"main\"}} }} }}\nscript main {{\n{}}}\n", body),
+        _ => format!("script timeline0 {{ }}\nvoid sub0() {{\n{}}}\n", body),
+    }
+}
+
+/// difficulty switches: lengths that differ between nesting levels, more cases than a mask has bits, empty cases
+fn diff_switch(rng: &mut Rng, depth: u32, float: bool) -> String {
+    let n = *rng.pick(&[1usize, 2, 3, 4, 4, 4, 4, 5, 6, 8, 9, 33, 40, 70]);
+    let mut parts = vec![];
+    for k in 0..n {
+        let c = rng.below(12);
+        parts.push(if k > 0 && c < 3 { String::new() }
+                   else if depth > 0 && c < 6 { diff_switch(rng, depth - 1, float) }
+                   else if c < 8 { (if float { "F1" } else { "I1" }).to_string() }
+                   else if float { format!("{}.0", rng.below(9)) } else { format!("{}", rng.below(9)) });
+    }
+    format!("({})", parts.join(":"))
+}
+
+fn diff_switch_case(rng: &mut Rng) -> (&'static str, &'static str, String, String) {
+    let float = rng.chance(1, 4);
+    let dd = 1 + rng.below(2) as u32;
+    let ds = diff_switch(rng, dd, float);
+    let (tool, game) = *rng.pick(&[("truecl", "6"), ("truecl", "7"), ("truecl", "8"), ("truecl", "6"), ("truanm", "12"), ("truecl", "10")]);
+    let var = if float { "F0" } else { "I0" };
+    let stmt = match rng.below(7) {
+        0 | 1 => format!("    {} = {};\n", var, ds),
+        2 => format!("    {} = {} + {};\n", var, ds, if float { "1.0" } else { "1" }),
+        3 => format!("    if ({} == {}) {{ {} = {}; }}\n", ds, if float { "1.0" } else { "1" }, var, if float { "2.0" } else { "2" }),
+        4 => format!("    {} = {} ? {} : {};\n", var, if float { "1".to_string() } else { ds.clone() }, ds, if float { "2.0" } else { "2" }),
+        5 => format!("    {} {} = {};\n", if float { "float" } else { "int" }, "loc", ds),
+        _ => format!("    {{\"EN\"}}: {} = {};\n", var, ds),
+    };
+    let konst = if rng.chance(1, 4) { format!("const {} K = {};\n", if float { "float" } else { "int" }, diff_switch(rng, 1, float)) } else { String::new() };
+    let src = match tool {
+        "truanm" => format!("#pragma mapfile \"{}/map/any.anmm\"\n{}entry {{ path: \"a.png\", has_data: false, img_width: 8, img_height: 8, img_format: 3, offset_x: 0, offset_y: 0, colorkey: 0, memory_priority: 0, low_res_scale: false, sprites: {{}} }}\nscript s0 {{\n{}}}\n", repo_root(), konst, stmt),
+        _ if game == "10" => format!("meta {{ ecli: [], anim: [] }}\n{}void main() {{\n    int I0 = 0; float F0 = 0.0; int I1 = 1; float F1 = 1.0;\n{}}}\n", konst, stmt),
+        _ => format!("#pragma mapfile \"{}/map/any.eclm\"\n{}script timeline0 {{}}\nvoid sub0() {{\n{}}}\n", repo_root(), konst, stmt),
+    };
+    (tool, game, src, format!("switch {}", &ds[..ds.len().min(60)]))
+}
+
+// ---------------------------------------------------------------------------------------------
 // the stream
 
 fn generate(seeds: &[Seed], budget: usize, tier: &str, rng: &mut Rng) -> Vec<Input> {
@@ -344,8 +523,20 @@ fn generate(seeds: &[Seed], budget: usize, tier: &str, rng: &mut Rng) -> Vec<Inp
     let configs: [(&str, &str, &[&str]); 12] = [("truanm", "6", &[]), ("truanm", "12", &[]), ("truanm", "17", &[]), ("trustd", "6", &[]), ("trustd", "8", &[]), ("trustd", "12", &[]),
         ("trumsg", "6", &[]), ("trumsg", "12", &[]), ("trumsg", "10", &["--ending"]), ("trumsg", "095", &["--mission"]), ("truecl", "6", &[]), ("truecl", "10", &[])];
     while out.len() < budget {
-        let c = g.below(100);
-        if c < 55 && !srcs.is_empty() {
+        let c = g.below(124);
+        if c >= 116 {
+            let (tool, game, src, desc) = diff_switch_case(&mut g);
+            out.push(Input { tool: tool.into(), game: game.into(), flags: vec![], kind: "diff-switch", desc, source: src.into_bytes(), mapfile: None });
+        } else if c >= 108 {
+            let (tool, game, flags) = *g.pick(&configs);
+            let flags: Vec<String> = flags.iter().map(|x| x.to_string()).collect();
+            let (src, map, desc) = builtin_redef_case(tool, &flags, &mut g);
+            let src = if g.chance(1, 3) && !flags.iter().any(|f| f == "--mission") { format!("#pragma mapfile \"m.{}\"\n{}", map_ext(tool), src) } else { src };
+            out.push(Input { tool: tool.into(), game: game.into(), flags, kind: "builtin-redef", desc, source: src.into_bytes(), mapfile: Some(map.into_bytes()) });
+        } else if c >= 100 {
+            let (tool, game, flags, src, desc) = header_int_case(&mut g);
+            out.push(Input { tool: tool.into(), game: game.into(), flags, kind: "header-int", desc, source: src.into_bytes(), mapfile: None });
+        } else if c < 55 && !srcs.is_empty() {
             let s = *g.pick(&srcs);
             let (kind, desc, bytes) = mutate_text(&s.bytes, &mut g);
             // a second mutation on top, sometimes
@@ -354,12 +545,16 @@ fn generate(seeds: &[Seed], budget: usize, tier: &str, rng: &mut Rng) -> Vec<Inp
         } else if c < 67 && !maps.is_empty() {
             let s = *g.pick(&maps);
             let (_k, desc, bytes) = mutate_text(&s.bytes, &mut g);
-            out.push(Input { tool: s.tool.clone(), game: s.game.clone(), flags: s.flags.clone(), kind: "map-mutate", desc: format!("{} {}", s.name, desc), source: trivial_source(&s.tool, &s.flags).into_bytes(), mapfile: Some(bytes) });
+            let pragma = g.chance(1, 3);
+            let src = call_source(&s.tool, &s.flags, &mut g, pragma);
+            out.push(Input { tool: s.tool.clone(), game: s.game.clone(), flags: s.flags.clone(), kind: if pragma { "map-mutate-pragma" } else { "map-mutate" }, desc: format!("{} {}", s.name, desc), source: src.into_bytes(), mapfile: Some(bytes) });
         } else if c < 82 {
             let (tool, game, flags) = *g.pick(&configs);
             let flags: Vec<String> = flags.iter().map(|x| x.to_string()).collect();
             let (text, desc) = mapfile_case(tool, &mut g);
-            out.push(Input { tool: tool.into(), game: game.into(), flags: flags.clone(), kind: "map-sections", desc, source: trivial_source(tool, &flags).into_bytes(), mapfile: Some(text.into_bytes()) });
+            let pragma = g.chance(1, 3);
+            let src = call_source(tool, &flags, &mut g, pragma);
+            out.push(Input { tool: tool.into(), game: game.into(), flags: flags.clone(), kind: if pragma { "map-sections-pragma" } else { "map-sections" }, desc, source: src.into_bytes(), mapfile: Some(text.into_bytes()) });
         } else if c < 94 {
             // grammar-generated: one ill-typed / ill-scoped construct at a nesting position (ANM v8 with a three-line mapfile)
             let p = gen_tc_prog(&mut g);
@@ -390,7 +585,8 @@ fn run_one(dir: &Path, i: &Input, exec: Option<bool>) -> Outcome {
     if let Some(m) = &i.mapfile {
         let name = format!("m.{}", map_ext(&i.tool));
         std::fs::write(dir.join(&name), m).expect("write mapfile");
-        args.push("-m".into()); args.push(name);
+        // a source that names the mapfile itself (`#pragma mapfile "m.eclm"`) gets it that way only
+        if !i.source.starts_with(b"#pragma mapfile \"m.") { args.push("-m".into()); args.push(name); }
     }
     let ctx = format!("{}:compile", i.tool);
     match exec {
